@@ -1,7 +1,8 @@
 ----------------------------- MODULE MCUpdater -----------------------------
 (***************************************************************************)
 (* Updater.tla with the commands a driver can issue recorded in `cmds`     *)
-(* (start / start_badmask / stop / pass = let the pass under way finish):  *)
+(* (start / start_badmask / stop / pass = let the pass under way finish /  *)
+(* close = close_wallet under the parked pass / open = open_wallet):       *)
 (* every transition prints the command script that leads to it; the        *)
 (* scripts run on the real code (harness/replay_updater) and the observed  *)
 (* thread events are validated against Updater.tla (TraceUpdater.tla).     *)
@@ -16,6 +17,7 @@ Waiting == {t \in DOMAIN th : th[t] = "waiting"}
 
 MInit == Init /\ cmds = <<>> /\ kind = <<>>
 MStart(k) == /\ Waiting = {}          \* (one waiting thread at a time: the order in which several get the mutex is not specified)
+             /\ open                   \* (a run over a closed wallet has no lock point to observe it at: model-only, MC_Updater.cfg)
              /\ Start /\ kind' = Append(kind, k)
              /\ cmds' = Append(cmds, [ev |-> IF k = "bad" THEN "start_badmask" ELSE "start"])
 MStop == Stop /\ cmds' = Append(cmds, [ev |-> "stop"]) /\ UNCHANGED kind
@@ -29,12 +31,21 @@ MPassStop(t) ==
   /\ th' = [th EXCEPT ![t] = "sleep"] /\ running' = FALSE /\ stopSeen' = passes /\ begunAfterStop' = 0
   /\ UNCHANGED <<holder, open, passes, kind>>
   /\ cmds' = Append(cmds, [ev |-> "pass_stop"])
+\* owner::close_wallet while a pass is under way (the thread is parked at a lock point of update_wallet_state): the
+\* pass fails at its next wallet_lock! (lc.wallet_inst() is an error on a closed wallet), the run ends with that
+\* error and the flag stays up - the thread becomes one whose pass fails
+MClose(t) == /\ t \in DOMAIN th /\ th[t] = "pass" /\ kind[t] = "good" /\ open /\ Waiting = {}
+             /\ OpenClose /\ kind' = [kind EXCEPT ![t] = "bad"]
+             /\ cmds' = Append(cmds, [ev |-> "close"])
+\* owner::open_wallet once nobody runs (a new token: later starts use it)
+MOpen == /\ ~open /\ Live = {} /\ OpenClose /\ UNCHANGED kind
+         /\ cmds' = Append(cmds, [ev |-> "open"])
 \* what the code does by itself, as soon as it can
 MAuto(t) == (Acquire(t) \/ Begin(t) \/ Wake(t)) /\ UNCHANGED <<cmds, kind>>
 AutoEnabled == \E t \in Ids : ENABLED Acquire(t) \/ ENABLED Begin(t) \/ ENABLED Wake(t)
 \* commands are issued only when the code has nothing left to do by itself (the driver waits for that)
 MNext == \/ \E t \in Ids : MAuto(t)
-         \/ ~AutoEnabled /\ (Len(cmds) < MaxCmds) /\ ((\E k \in {"good", "bad"} : MStart(k)) \/ MStop \/ \E t \in Ids : (MPass(t) \/ MPassStop(t)))
+         \/ ~AutoEnabled /\ (Len(cmds) < MaxCmds) /\ ((\E k \in {"good", "bad"} : MStart(k)) \/ MStop \/ MOpen \/ \E t \in Ids : (MPass(t) \/ MPassStop(t) \/ MClose(t)))
 MSpec == MInit /\ [][MNext]_mvars
 Emit == [][cmds' # cmds => PrintT(<<"SCRIPT", ToJson(cmds')>>)]_mvars
 =============================================================================
